@@ -161,6 +161,68 @@ theorem confirm_duplicate_refused (l : L) (id pre : Nat) (txs : List (Nat × Boo
     (confirm l id pre txs).2 = .fail := by
   unfold confirm; simp [h]
 
+theorem saveBlock_stores (l : L) (id : Nat) (h : Hdr) : (lookup (saveBlock l id h).B id).isSome = true := by
+  unfold saveBlock
+  simp only
+  rw [lookup_put]
+  simp
+
+/-- an accepted block is stored -/
+theorem confirm_accepted_stored (l : L) (id pre : Nat) (txs : List (Nat × Bool)) (h : (confirm l id pre txs).2 ≠ .fail) :
+    (lookup (confirm l id pre txs).1.B id).isSome = true := by
+  unfold confirm at h ⊢
+  by_cases h1 : (lookup l.B id).isSome = true
+  · simp [h1] at h
+  · simp only [h1] at h ⊢
+    cases hp : lookup l.B pre with
+    | none => simp [hp] at h
+    | some pb =>
+      simp only [hp] at h ⊢
+      by_cases h2 : pre = l.tip
+      · simp only [h2, ↓reduceIte] at h ⊢
+        cases hc : confirmTxs l id true l.trunkHeight txs 0 _ with
+        | none => simp [hc] at h
+        | some l4 =>
+          simp only
+          rw [(confirmTxs_frame _ _ _ _ _ _ _ _ hc).1]
+          simp only
+          apply saveBlock_stores
+      · simp only [h2, ↓reduceIte] at h ⊢
+        by_cases h3 : pb.height + 1 > l.trunkHeight
+        · simp only [h3, ↓reduceIte] at h ⊢
+          cases hf : handleFork l (l.trunkHeight + 2) l.tip pre (some id) l with
+          | none => simp [hf] at h
+          | some r =>
+            obtain ⟨l1, sh⟩ := r
+            simp only [hf] at h ⊢
+            cases hc : confirmTxs l id true sh txs 0 _ with
+            | none => simp [hc] at h
+            | some l4 =>
+              simp only
+              rw [(confirmTxs_frame _ _ _ _ _ _ _ _ hc).1]
+              simp only
+              apply saveBlock_stores
+        · simp only [h3, ↓reduceIte] at h ⊢
+          cases hc : confirmTxs l id false l.trunkHeight txs 0 _ with
+          | none => simp [hc] at h
+          | some l4 =>
+            simp only [Bool.false_eq_true, ↓reduceIte]
+            rw [(confirmTxs_frame _ _ _ _ _ _ _ _ hc).1]
+            simp only
+            apply saveBlock_stores
+
+/-- **the same block submitted twice** (two peers pushing it): whatever the first submission did, the second is refused and
+writes nothing - so of two submissions of one block, in either order, at most one is accepted and the ledger is the one
+after a single submission. (`lrace confirm:b confirm:b` checks that the real ledger behaves like one of the two orders
+when both submissions are in flight at once.) -/
+theorem confirm_same_block_twice (l : L) (id pre : Nat) (txs : List (Nat × Bool)) (pre' : Nat) (txs' : List (Nat × Bool))
+    (h : (confirm l id pre txs).2 ≠ .fail) :
+    confirm (confirm l id pre txs).1 id pre' txs' = ((confirm l id pre txs).1, .fail) := by
+  have hs := confirm_accepted_stored l id pre txs h
+  generalize (confirm l id pre txs).1 = l1 at hs ⊢
+  unfold confirm
+  simp [hs]
+
 /-- a block whose parent is not stored is refused -/
 theorem confirm_unknown_parent_refused (l : L) (id pre : Nat) (txs : List (Nat × Bool)) (h : lookup l.B pre = none) :
     (confirm l id pre txs).2 = .fail := by
